@@ -43,7 +43,9 @@ class Population:
         return [Individual(genome, self.problem, fitness) for genome, fitness in zip(self.genomes, self.fitnesses)]
 
     def topk(self, k: int) -> "Population":
-        topk_indices = np.argsort(self.fitnesses)[-k:] if self.problem.maximize else np.argsort(self.fitnesses)[:k]
+        order = np.argsort(self.fitnesses)
+        # order[-k:] would be the whole population for k == 0.
+        topk_indices = order[max(len(order) - k, 0) :] if self.problem.maximize else order[:k]
         return Population(self.genomes[topk_indices], self.fitnesses[topk_indices], self.problem)
 
     def merge(self, other: "Population") -> "Population":
